@@ -1,8 +1,10 @@
 """C01 - base and extension field arithmetic is exact and canonical."""
 ID = "C01"
 GEN_TAGS = ["BFieldGen", "XFieldGen"]
-PROOF_TARGETS = ["proofs/BFieldProofs.vo", "proofs/BFieldLoops.vo", "proofs/XFieldProofs.vo", "proofs/XFieldIrred.vo", "proofs/BatchInvProofs.vo", "proofs/XFieldGenProofs.vo", "proofs/XFieldOk.vo"]
+PROOF_TARGETS = ["proofs/BFieldProofs.vo", "proofs/BFieldLoops.vo", "proofs/XFieldProofs.vo", "proofs/XFieldIrred.vo", "proofs/BatchInvProofs.vo", "proofs/XFieldGenProofs.vo", "proofs/XFieldOk.vo",
+                 "proofs/BFieldExtra.vo", "proofs/XFieldExtra.vo"]
 PROPS_FILE = "props/C01.v"
+EXTRA_PROPS_FILES = ["props/C01b.v"]
 EXTRACT = "extract/ExtractC01.vo"
 ORACLE = ("gen_c01", "c01.ml")
 HARNESS = "c01"
@@ -152,6 +154,29 @@ def cases(tier, rng):
     out.append(("sum", "sum"))
     for L in (1, 2, 3, 17):
         out.append(("sum", "sum " + " ".join(str(rng.choice(G)) for _ in range(L))))
+    # sums whose Montgomery words pile up near multiples of 2^64 (a wide accumulation with a wrong carry
+    # fix-up only fails from three summands on, when the low word of the raw sum is within hi*(2^32-1) of 2^64)
+    rawx = [w * RINV % P for w in (P - 1, P - 2, P - 2**32, P - 2**32 + 1, 2**63, 2**63 + 1, (P - 1) // 2, 2**32 - 1, 2**32, 1, 3)]
+    for a in rawx[:8]:
+        for b in rawx[:8]:
+            for c in rawx:
+                out.append(("sum-raw-carry", "sum %d %d %d" % (a, b, c)))
+    for _ in range(4000 if big else 600):
+        L = rng.choice((3, 4, 5, 6, 7, 8, 16, 31, 64, 100))
+        pool = rawx if rng.random() < 0.5 else rawx + G
+        out.append(("sum-raw-carry", "sum " + " ".join(str(rng.choice(pool)) for _ in range(L))))
+    for _ in range(2000 if big else 300):
+        # engineered: raw words w1..wk with  sum = hi*2^64 + lo,  lo in [2^64 - hi*(2^32-1) - 2, 2^64 - 1]
+        k = rng.choice((3, 4, 5, 9))
+        ws = [rng.randrange(P - 2**33, P) if rng.random() < 0.7 else rng.randrange(P) for _ in range(k - 1)]
+        hi = rng.randrange(1, k)
+        lo = 2**64 - 1 - rng.randrange(0, hi * (2**32 - 1) + 3)
+        last = hi * 2**64 + lo - sum(ws)
+        if 0 <= last < P:
+            out.append(("sum-raw-carry", "sum " + " ".join(str(w * RINV % P) for w in ws + [last])))
+    for _ in range(300 if big else 60):
+        L = 3 * rng.choice((3, 4, 5, 8))
+        out.append(("xfe-api", "xsum " + " ".join(str(rng.choice(rawx)) for _ in range(L))))
     for g, mx in ((1, "-"), (P - 1, "-"), (1, 5), (0, 3), (7, 10), (2**32, "-"), (281474976710656, "-"), (18446744069397807105, "-"),
                   (7, 1), (7, 2), (P - 1, 1), (2, 200), (1753635133440165772, 1000)):
         out.append(("cyclic", "cyclic %d %s" % (g, mx)))
